@@ -208,6 +208,103 @@ def reachesConvolution (r : ResizeReq) : Bool :=
       else true
     | _ => true
 
+/-! ### C01: the ideal separable filter, evaluated in f64 without fixed point, pass order shortcuts or scratch images -/
+
+/-- real-valued component of a source pixel -/
+def realComp (k : CKind) (v : Int) : Float :=
+  match k with
+  | .f32 => f64OfF32Bits v
+  | _ => Float.ofInt v
+
+def clampReal (k : CKind) (x : Float) : Float :=
+  match k with
+  | .u8 => if x < 0.0 then 0.0 else if x > 255.0 then 255.0 else x
+  | .u16 => if x < 0.0 then 0.0 else if x > 65535.0 then 65535.0 else x
+  | .i32 => if x < -2147483648.0 then -2147483648.0 else if x > 2147483647.0 then 2147483647.0 else x
+  | .f32 => x
+
+/-- largest sum of |w| over the windows -/
+def maxAbsSum (fc : Array (Nat × Array Float)) : Float :=
+  fc.foldl (fun (m : Float) (ch : Nat × Array Float) =>
+    let s : Float := ch.2.foldl (fun (a : Float) (w : Float) => a + w.abs) 0.0
+    if s > m then s else m) 0.0
+
+/-- one ideal pass over a real-valued image stored row-major with `n` components; returns (image, max sum |w|) -/
+def idealPass (k : CKind) (horiz : Bool) (src : Array Float) (sw : Nat) (n : Nat) (c : Coeffs) (dw dh offset : Nat) : Array Float × Float := Id.run do
+  let fc := floatChunks c
+  let mut out : Array Float := Array.mkEmpty (dw * dh * n)
+  for y in [0:dh] do
+    for x in [0:dw] do
+      let (start, ks) := fc.getD (if horiz then x else y) (0, #[])
+      for ch in [0:n] do
+        let mut acc : Float := 0.0
+        for j in [0:ks.size] do
+          let v : Float := if horiz then src.getD (((offset + y) * sw + (start + j)) * n + ch) 0.0
+                           else src.getD (((start + j) * sw + (offset + x)) * n + ch) 0.0
+          acc := acc + ks[j]! * v
+        out := out.push (clampReal k acc)
+  return (out, maxAbsSum fc)
+
+/-- C01 oracle: every destination sample within the rounding error of the ideal two-pass separable
+    resampling (only Convolution / Interpolation without alpha processing; other cases return none) -/
+def checkIdeal (c : CheckCtx) : Option String := Id.run do
+  if c.status != "ok" then return some s!"status {c.status}"
+  let r := c.r
+  let k := r.p.kind
+  let n := r.p.n
+  let (f, adaptive) ← match r.opts.alg with
+    | .conv f => pure (f, true)
+    | .interp f => pure (f, false)
+    | _ => return none
+  if alphaPathOf r then return none
+  let (cl, ct, cw, ch) ← match r.opts.crop with
+    | .none => pure ((0.0 : Float), (0.0 : Float), Float.ofNat c.src.w, Float.ofNat c.src.h)
+    | .box l t w h => pure (l, t, w, h)
+    | .fit cx cy => pure (fitCrop c.src.w c.src.h c.dw c.dh cx cy)
+  if c.dw = 0 ∨ c.dh = 0 ∨ !(cw > 0.0) ∨ !(ch > 0.0) then return none
+  -- a dimension is resampled unless the crop is integer-aligned and already has the destination size (C12)
+  let needH := !(Float.ofNat c.dw == cw && cl == cl.floor)
+  let needV := !(Float.ofNat c.dh == ch && ct == ct.floor)
+  if !needH && !needV then return none
+  let src0 : Array Float := c.src.data.map (realComp k)
+  let hc := precomputeCoefficients c.src.w cl (cl + cw) c.dw f adaptive
+  let vc := precomputeCoefficients c.src.h ct (ct + ch) c.dh f adaptive
+  -- both passes on the full source extent (no temporary-image geometry, no fixed point); clamping between the
+  -- passes depends on their order, which is the documented one: vertical first for 8-bit components, else horizontal first
+  let cropCols : Array Float → Nat → Nat → Array Float := fun img w h =>
+    Array.ofFn (n := c.dw * h * n) fun i =>
+      let chn := i.val % n
+      let p := i.val / n
+      img.getD (((p / c.dw) * w + (cl.toUInt32.toNat + p % c.dw)) * n + chn) 0.0
+  let cropRows : Array Float → Nat → Array Float := fun img w =>
+    Array.ofFn (n := w * c.dh * n) fun i =>
+      let chn := i.val % n
+      let p := i.val / n
+      img.getD (((ct.toUInt32.toNat + p / w) * w + p % w) * n + chn) 0.0
+  let (img2, s1, s2) : Array Float × Float × Float :=
+    if k == .u8 then
+      -- vertical (all source columns), then horizontal
+      let (a, sv) := if needV then idealPass k false src0 c.src.w n vc c.src.w c.dh 0 else (cropRows src0 c.src.w, 0.0)
+      let (b, sh) := if needH then idealPass k true a c.src.w n hc c.dw c.dh 0 else (cropCols a c.src.w c.dh, 0.0)
+      (b, sv, sh)
+    else
+      let (a, sh) := if needH then idealPass k true src0 c.src.w n hc c.dw c.src.h 0 else (cropCols src0 c.src.w c.src.h, 0.0)
+      let (b, sv) := if needV then idealPass k false a c.dw n vc c.dw c.dh 0 else (cropRows a c.dw, 0.0)
+      (b, sh, sv)
+  let mabs := src0.foldl (fun m v => if v.abs > m then v.abs else m) 0.0
+  let sBoth := (if s1 > 1.0 then s1 else 1.0) * (if s2 > 1.0 then s2 else 1.0)
+  let tol : Float := match k with
+    | .f32 => 1e-5 * mabs * sBoth + 1e-30
+    | _ => 0.6 + 0.55 * (if s1 > s2 then s1 else s2) + 1e-9 * mabs
+  for y in [0:c.dh] do
+    for x in [0:c.dw] do
+      for chn in [0:n] do
+        let want := img2.getD ((y * c.dw + x) * n + chn) 0.0
+        let g := realComp k (c.dstComp x y chn)
+        if !((g - want).abs ≤ tol) then
+          return some s!"sample ({x},{y}) channel {chn} is {g}, the ideal separable filter gives {want} (tolerance {tol})"
+  return none
+
 def mkCtx (r : ResizeReq) (status : String) (got : Array Int) (fillByte : Nat) : CheckCtx :=
   { r := r, src := extractImg r.sview r.p.n r.sbuf, dstIdx := ((r.dview.rows 0).flatten).toArray,
     dw := r.dview.width, dh := r.dview.height, status := status, got := got, fill := fillComp r.p.kind fillByte }
@@ -243,6 +340,7 @@ def handleResizeChecked (fs : List (String × String)) : String :=
           if skip then none else
           match name with
           | "copy" => checkCopy c
+          | "ideal" => checkIdeal c
           | "nopanic" => none   -- judged before the model comparison, see handleResizeChecked
           | "simd" => (match gotB with
             | some (stB, b2) => if stB != gst then some s!"portable back-end ended with {stB}, {r.ext} with {gst}" else
